@@ -30,7 +30,14 @@ RULE = ("A case is an interval [a,b] (a from a fixed list of integers/dyadic/irr
         "driven through 2-3 set_grid calls (another tree on the same [a,b], a refined superset, the same points "
         "relabelled, back to the first tree) and every clause is evaluated after EVERY set_grid; a violation that "
         "only shows in a later round and not on a fresh object gets the signature suffix "
-        "/only-after-earlier-set_grid-calls-on-the-same-grid-object. Sub-checks: trapezoid (boundary / noboundary / modified), highorder "
+        "/only-after-earlier-set_grid-calls-on-the-same-grid-object. Three quarters of the cases hand the point / level "
+        "sequences to set_grid in a drawn container form (tuple, list of numpy scalars, float64/int64 ndarray, view "
+        "into a larger array, int64 ndarray of integer-valued points; GlobalBSplineGrid: list-like forms only) and "
+        "assert: the caller's containers are bit-identical after set_grid and after integrate/get_weights; all "
+        "clauses hold; coordinates, weights and a probe integral equal those of the plain-list form (1e-12 rel.); in "
+        "half of the cases the caller then overwrites its own containers and the grid's answers must not move "
+        "(1e-13 rel.). Suffixes /argument-form=points|levels:<form>, .../caller-argument-modified, "
+        ".../after-caller-reused-its-container. Sub-checks: trapezoid (boundary / noboundary / modified), highorder "
         "(boundary T/F, max_degree 1-5, split_up T/F), hierarchical (Lagrange p 1-4, B-spline p 1,3,5 with boundary; "
         "B-spline boundary-off modified for the constant clause). Non-trivial = some dimension has >= 5 points and two "
         "leaves of different width. Distinct = distinct case dict. Class counters show the 3/4/5-point special cases, "
@@ -39,6 +46,9 @@ ASSUMPTIONS = [
     "grids are fed as SpatiallyAdaptiveSingleDimensions2 feeds them: python lists of sorted floats incl. both domain ends, "
     "integer tree levels (ends 0, exactly one level-1 point, child level = max(neighbour levels)+1), at least 3 points",
     "modified_basis only together with boundary=False (the constructors assert this)",
+    "argument forms: any Sequence of numbers is legitimate input for points and levels (test/test_Integrator.py passes "
+    "np.linspace arrays and int ndarrays of levels); GlobalBSplineGrid needs a sequence with .index (the same test "
+    "converts to list for this class only), so it gets list / tuple / list of np.float64 only",
     "every tolerance is relative: to max|reference weight| / (b-a), to sum|w_i f(x_i)| + (b-a)*max|f| for integrals, to "
     "the magnitude of the closed-form value for monomials; nothing in the harness is absolute in the unit of [a,b]",
     "'enough points' for degree k of a hierarchical rule := the tree contains the complete binary tree of depth m with "
@@ -300,16 +310,106 @@ def seq_rounds(case, a, b):
 
 
 SEQ_SUFFIX = "/only-after-earlier-set_grid-calls-on-the-same-grid-object"
+POINT_FORMS = ["list", "tuple", "list-np.float64", "ndarray", "ndarray-view", "int-ndarray"]
+LEVEL_FORMS = ["list", "tuple", "list-np.int64", "ndarray", "ndarray-view"]
+
+
+def to_form(vals, form, is_level):
+    """-> (container handed to set_grid, owner array or None, form actually used).
+    list / tuple of python numbers, list of numpy scalars, float64 (levels: int64) ndarray that owns its data, a view
+    (slice [1:-2]) of a larger array, or - if every point is integer valued - an int64 ndarray of the points."""
+    import numpy as np
+    if form == "int-ndarray":
+        if is_level or not all(float(v).is_integer() and abs(v) < 2 ** 52 for v in vals):
+            form = "ndarray"
+        else:
+            return np.array([int(v) for v in vals], dtype=np.int64), None, form
+    dt = np.int64 if is_level else np.float64
+    if form == "list":
+        return [int(v) if is_level else float(v) for v in vals], None, form
+    if form == "tuple":
+        return tuple(int(v) if is_level else float(v) for v in vals), None, form
+    if form in ("list-np.float64", "list-np.int64"):
+        return [dt(v) for v in vals], None, form
+    if form == "ndarray":
+        return np.array(vals, dtype=dt), None, form
+    if form == "ndarray-view":
+        owner = np.empty(len(vals) + 3, dtype=dt)
+        owner[0] = -7
+        owner[-2:] = -7
+        owner[1:-2] = vals
+        return owner[1:-2], owner, form
+    raise ValueError(form)
+
+
+def snapshot(container, owner):
+    """bit-identical copy of a caller-side container (and of the array a view belongs to)"""
+    import numpy as np
+    if isinstance(container, np.ndarray):
+        return ("nd", container.dtype, container.copy(), None if owner is None else owner.copy())
+    return ("seq", type(container), [(type(v), v) for v in container], None)
+
+
+def unchanged(container, owner, snap):
+    import numpy as np
+    if snap[0] == "nd":
+        return (isinstance(container, np.ndarray) and container.dtype == snap[1] and container.shape == snap[2].shape
+                and bool(np.all(container == snap[2])) and (owner is None or bool(np.all(owner == snap[3]))))
+    return type(container) is snap[1] and [(type(v), v) for v in container] == snap[2]
+
+
+class _Probe(object):
+    """smooth positive integrand prod_d (1 + 0.5 t_d)^2, t_d = (x_d - a_d)/(b_d - a_d); used to compare answers"""
+
+    def __init__(self, a, b):
+        self.a, self.b = a, b
+
+    def __call__(self, t):
+        r = 1.0
+        for d in range(len(self.a)):
+            r *= (1.0 + 0.5 * (float(t[d]) - self.a[d]) / (self.b[d] - self.a[d])) ** 2
+        return r
+
+
+def _answers(g, trees, a, b):
+    """what a caller can read off the grid object: coordinates, 1D weights, tensor weights, integral of the probe"""
+    import numpy as np
+    from sparseSpACE.Function import FunctionCustom
+    coords = [[float(t) for t in g.coordinate_array[d]] for d in range(len(a))]
+    w1 = [[float(t) for t in g.weights[d]] for d in range(len(a))]
+    wt = [float(t) for t in _silent(g.get_weights)]
+    val = _silent(g.integrate, FunctionCustom(_Probe(a, b)), [max(t[1]) for t in trees], a, b)
+    return coords, w1, wt, float(np.asarray(val, dtype=float).reshape(-1)[0])
+
+
+def _same(x, y, rel):
+    """nan-safe comparison of two float lists / floats: |x-y| <= rel * max|.|"""
+    xs = x if isinstance(x, list) else [x]
+    ys = y if isinstance(y, list) else [y]
+    if len(xs) != len(ys):
+        return False
+    m = max([abs(t) for t in xs + ys if t == t] + [0.0])
+    return all((p == q) or (p == p and q == q and abs(p - q) <= rel * m) for p, q in zip(xs, ys))
 
 
 def drive(case, sub, out, a, b, make_grid, check_round):
     """Drive ONE grid object through the rounds of the case (as an adaptive run does with its grid) and evaluate
-    every clause after EVERY set_grid.  check_round(out, g, trees, splits, k).  A violation that shows in a later
-    round is re-checked on a fresh grid object: if the same tree is clean there, the cause is state kept from the
-    earlier set_grid calls and the signature gets SEQ_SUFFIX."""
+    every clause after EVERY set_grid.  check_round(out, g, trees, splits, k).
+
+    Arguments: the per-dimension point and level sequences are handed over in the container forms case['form'][d] =
+    [point form, level form]; after set_grid and again after all integrate/get_weights calls the caller's containers
+    must be bit-identical to copies taken before; the answers must equal those of a grid that got plain lists; if
+    case['reuse'], the caller then overwrites its own (mutable) containers and the grid's answers must not move.
+
+    Attribution (signature suffixes): a violation that shows in a later round but not on a fresh grid object ->
+    SEQ_SUFFIX; one that shows with this container form but not with plain lists -> /argument-form=<form>."""
+    import numpy as np
     from vlib.core import guarded
+    dim = len(a)
     rounds = seq_rounds(case, a, b)
-    for t in case.get("scale", ["1"] * len(a)):
+    forms = case.get("form") or [["list", "list"]] * dim
+    plain = [["list", "list"]] * dim
+    for t in case.get("scale", ["1"] * dim):
         out.cls("interval-scale=" + t)
     if len(set(case.get("scale", ["1"]))) > 1:
         out.cls("interval-scale:anisotropic")
@@ -319,9 +419,97 @@ def drive(case, sub, out, a, b, make_grid, check_round):
     out.info["max_points"] = max(len(t[0]) for _, trees, _ in rounds for t in trees)
     out.info["max_level"] = max(max(t[1]) for _, trees, _ in rounds for t in trees)
 
-    def one(o, g, trees, splits, k):
-        _silent(g.set_grid, [list(t[0]) for t in trees], [list(t[1]) for t in trees])
+    def one(o, g, trees, splits, k, forms, full):
+        P = [to_form(trees[d][0], forms[d][0], False) for d in range(dim)]
+        L = [to_form(trees[d][1], forms[d][1], True) for d in range(dim)]
+        used = [(P[d][2], L[d][2]) for d in range(dim)]
+        if full:
+            for pf, lf in used:
+                o.cls("points-as=" + pf, "levels-as=" + lf)
+        snaps = [(snapshot(P[d][0], P[d][1]), snapshot(L[d][0], L[d][1])) for d in range(dim)]
+
+        def args_intact(when):
+            ok = True
+            for d in range(dim):
+                for which, X, sn in (("points", P[d], snaps[d][0]), ("levels", L[d], snaps[d][1])):
+                    if not unchanged(X[0], X[1], sn):
+                        o.bad("%s/arguments/%s/caller-argument-modified" % (sub, which),
+                              "dim %d: the caller's %s container (%s) is not what it was before the call (%s): now %s, "
+                              "passed %s" % (d, which, X[2], when, list(X[0])[:6], [v for _, v in sn[2]][:6]
+                                             if sn[0] == "seq" else list(sn[2])[:6]))
+                        ok = False
+            return ok
+        _silent(g.set_grid, [x[0] for x in P], [x[0] for x in L])
+        if not args_intact("set_grid"):
+            return
         check_round(o, g, trees, splits, k)
+        if o.violations:
+            args_intact("integrate")
+            return
+        ans = _answers(g, trees, a, b)
+        if not args_intact("integrate/get_weights"):
+            return
+        # (c) the answer depends on the point set only, not on the container it arrived in
+        if any(f != ("list", "list") for f in used):
+            g0 = make_grid()
+            _silent(g0.set_grid, [list(t[0]) for t in trees], [list(t[1]) for t in trees])
+            ref = _answers(g0, trees, a, b)
+            for name, x, y in (("coordinates", ans[0], ref[0]), ("weights", ans[1], ref[1]),
+                               ("tensor-weights", [ans[2]], [ref[2]]), ("integrate", [[ans[3]]], [[ref[3]]])):
+                if not all(_same(p, q, 1e-12) for p, q in zip(x, y)) or len(x) != len(y):
+                    o.bad("%s/depends-on-argument-form/%s" % (sub, name),
+                          "forms %s: %s differ from those of the same point set passed as plain lists: %s vs %s"
+                          % (used, name, str(x)[:150], str(y)[:150]))
+                    return
+        # the caller goes on using its own containers: the grid it configured must not change
+        if case.get("reuse"):
+            touched = False
+            for d in range(dim):
+                for X, is_level in ((P[d], False), (L[d], True)):
+                    c = X[0]
+                    if isinstance(c, tuple):
+                        continue
+                    touched = True
+                    if is_level:
+                        c[:] = [0] * len(c)
+                    elif isinstance(c, np.ndarray) and c.dtype.kind == "i":
+                        c[:] = c[0]
+                    else:
+                        x0 = float(c[0])
+                        c[:] = [x0 + 0.5 * (float(v) - x0) for v in c]
+            if touched:
+                o.cls("caller-reused-its-containers")
+                alias = False
+                for d in range(dim):
+                    for stored in (g.coordinate_array[d], g.coordinate_array_with_boundary[d], g.levels[d]):
+                        for X in (P[d], L[d]):
+                            if stored is X[0] or (isinstance(stored, np.ndarray) and isinstance(X[0], np.ndarray)
+                                                  and stored.dtype != object and np.shares_memory(stored, X[0])):
+                                alias = True
+
+                def sig(what):
+                    # one signature per root cause: a grid that kept a reference to the caller's container changes in
+                    # many ways (coordinates, integral, singular hierarchisation matrix); otherwise name what moved
+                    if alias:
+                        return "%s/grid-answers-changed/grid-stores-the-callers-container/after-caller-reused-its-container" % sub
+                    return "%s/grid-answers-changed/%s/no-shared-container-found/after-caller-reused-its-container" % (sub, what)
+                try:
+                    after = _answers(g, trees, a, b)
+                except Exception as e:      # a library exception caused by the caller's later writes is the finding
+                    from vlib.core import classify_exception
+                    kind, frag, text = classify_exception(e)
+                    if kind != "lib":
+                        raise
+                    o.bad(sig("exception:" + frag), "forms %s: after the caller overwrote its own containers: %s: %s"
+                          % (used, type(e).__name__, e))
+                    return
+                for name, x, y in (("coordinates", after[0], ans[0]), ("weights", after[1], ans[1]),
+                                   ("tensor-weights", [after[2]], [ans[2]]), ("integrate", [[after[3]]], [[ans[3]]])):
+                    if not all(_same(p, q, 1e-13) for p, q in zip(x, y)) or len(x) != len(y):
+                        o.bad(sig(name), "forms %s (d=%d, points per dim %s): after the caller overwrote its own point/level "
+                              "containers the grid's %s changed from %s to %s"
+                              % (used, dim, [len(t[0]) for t in trees], name, str(y)[:150], str(x)[:150]))
+                        break
 
     g = make_grid()
     for k, (kind, trees, splits) in enumerate(rounds):
@@ -330,15 +518,36 @@ def drive(case, sub, out, a, b, make_grid, check_round):
         for d, (pts, lev) in enumerate(trees):
             tree_classes(out, pts, lev, splits[d])
         nb = len(out.violations)
-        guarded(sub, out, one, out, g, trees, splits, k)
-        if len(out.violations) > nb:
+        cur = Outcome()
+        cur.info = out.info
+        guarded(sub, cur, one, cur, g, trees, splits, k, forms, True)
+        out.cls(*cur.classes)
+        if cur.violations:
+            suffix, note = "", ""
             if k > 0:
                 fresh = Outcome()
-                guarded(sub, fresh, one, fresh, make_grid(), trees, splits, k)
+                guarded(sub, fresh, one, fresh, make_grid(), trees, splits, k, forms, True)
                 if not fresh.violations:
-                    out.violations[nb:] = [(sig + SEQ_SUFFIX, ("round %d (%s) on a grid object that had %d earlier set_grid "
-                                            "call(s); a fresh object is clean on this tree. %s" % (k, kind, k, msg))[:600])
-                                           for sig, msg in out.violations[nb:]]
+                    suffix = SEQ_SUFFIX
+                    note = ("round %d (%s) on a grid object that had %d earlier set_grid call(s); a fresh object is "
+                            "clean on this tree. " % (k, kind, k))
+            # signatures that already name their cause get no form suffix (one signature per root cause)
+            aliasing = all("/grid-stores-the-callers-container/" in sg or "/basis-value-differs-for-integer-x" in sg
+                           for sg, _ in cur.violations)
+            if not suffix and forms != plain and not aliasing:
+                fresh = Outcome()
+                guarded(sub, fresh, one, fresh, make_grid(), trees, splits, k, plain, False)
+                if not fresh.violations:
+                    # which argument is responsible: the point containers (levels passed plainly) or the level containers
+                    half = [[forms[d][0], "list"] for d in range(dim)]
+                    fresh = Outcome()
+                    guarded(sub, fresh, one, fresh, make_grid(), trees, splits, k, half, False)
+                    j = 0 if fresh.violations else 1
+                    used = sorted({to_form(trees[d][j], forms[d][j], bool(j))[2] for d in range(dim)} - {"list"})
+                    suffix = "/argument-form=%s:%s" % ("levels" if j else "points", "+".join(used))
+                    note = "clean when the same trees are passed as plain python lists. "
+            for sig, msg in cur.violations:
+                out.violations.append((sig + suffix, (note + msg)[:600]))
             break
     return out
 
@@ -665,6 +874,19 @@ def run_hierarchical(case):
                 out.bad(sub + "/structure/basis-count",
                         "dim %d: %d basis functions for %d nodes" % (d, len(g.basis[d]), len(x)))
                 return
+            raw = list(g.coordinate_array[d])
+            if any(isinstance(t, (int, np.integer)) for t in raw):
+                # integer point arrays: the value of a basis function must not depend on the numeric type of x
+                out.cls("integer-coordinates")
+                for i, xi in enumerate(raw):
+                    vi = [float(_silent(g.basis[d][j], xi)) for j in range(len(x))]
+                    vf = [float(_silent(g.basis[d][j], float(xi))) for j in range(len(x))]
+                    if not _same(vi, vf, 1e-12):
+                        j = max(range(len(x)), key=lambda q: abs(vi[q] - vf[q]) if vi[q] == vi[q] else 1e300)
+                        out.bad(sub + "/depends-on-argument-form/basis-value-differs-for-integer-x",
+                                "dim %d %s p=%d: basis[%d](%r) = %r but basis[%d](%r) = %r (integer arithmetic overflow?)"
+                                % (d, family, p, j, xi, vi[j], j, float(xi), vf[j]))
+                        return
             M = np.array([[float(g.basis[d][j](xi)) for j in range(len(x))] for xi in x])
             c = float(np.linalg.cond(M)) if np.all(np.isfinite(M)) else float("inf")
             cond = cond * c     # the tensor-product collocation system has the product of the 1D condition numbers
@@ -798,6 +1020,15 @@ def _seq(draw, dim, other_tree):
     return seq
 
 
+@st.composite
+def _forms(draw, dim, point_forms=None):
+    """container forms of the point / level sequences handed to set_grid, per dimension"""
+    pf = point_forms or ["list", "list", "tuple", "list-np.float64", "ndarray", "ndarray", "ndarray-view", "int-ndarray"]
+    lf = ["list", "list", "tuple", "list-np.int64", "ndarray", "ndarray", "ndarray-view"]
+    one = [draw(st.sampled_from(pf)), draw(st.sampled_from(lf))]
+    return [list(one) for _ in range(dim)]      # one form pair per case (int-ndarray still falls back per dimension)
+
+
 _SCALE_DRAW = ["1"] * 6 + ["2^-30", "1e-9", "1e-7", "1e-6", "1e-3", "1e3", "2^20"]
 
 
@@ -824,6 +1055,11 @@ def trapezoid_strategy(tier):
                     vscale=draw(st.sampled_from([1.0, 1.0, 1e3, 1e-3])))
         if draw(st.integers(0, 3)) == 0:
             case["seq"] = draw(_seq(dim, tree))
+        if draw(st.integers(0, 3)) > 0:
+            case["form"] = draw(_forms(dim))
+            if case["form"][0][0] == "int-ndarray":
+                case["scale"] = ["2^20"] * dim      # dyadic trees on [a0, a0+len]*2^20 have integer valued points
+        case["reuse"] = draw(st.booleans())
         return case
     return s()
 
@@ -843,6 +1079,11 @@ def highorder_strategy(tier):
                     split_up=draw(st.booleans()), trees=trees, rng=draw(st.integers(0, 2 ** 31 - 1)))
         if draw(st.integers(0, 3)) == 0:
             case["seq"] = draw(_seq(dim, tree))
+        if draw(st.integers(0, 3)) > 0:
+            case["form"] = draw(_forms(dim))
+            if case["form"][0][0] == "int-ndarray":
+                case["scale"] = ["2^20"] * dim      # dyadic trees on [a0, a0+len]*2^20 have integer valued points
+        case["reuse"] = draw(st.booleans())
         return case
     return s()
 
@@ -896,6 +1137,13 @@ def hierarchical_strategy(tier):
         if seq:
             # ONE grid object receives 2-3 trees (caches keyed by level/index must not survive a set_grid)
             case["seq"] = draw(_seq(dim, tree))
+        if draw(st.integers(0, 3)) > 0:
+            # GlobalBSplineGrid looks its points up with grid_1D.index(..): a sequence type with .index is required
+            # (the repository's own test converts np.linspace to a list for this class, and only for this class)
+            case["form"] = draw(_forms(dim, ["list", "tuple", "list-np.float64"] if family == "bspline" else None))
+            if case["form"][0][0] == "int-ndarray":
+                case["scale"] = ["2^20"] * dim      # dyadic trees on [a0, a0+len]*2^20 have integer valued points
+        case["reuse"] = draw(st.booleans())
         return case
     return s()
 
@@ -975,6 +1223,23 @@ def selftest():
 
         def set_grid(self, pts, lev):
             self.calls += 1
+            self.coordinate_array = [list(t) for t in pts]
+            self.coordinate_array_with_boundary = [list(t) for t in pts]
+            self.levels = [list(t) for t in lev]
+            self.weights = [[1.0] * len(t) for t in pts]
+            if self.spoil:
+                pts[0][0] = 99.0
+
+        spoil = False
+
+        def get_weights(self):
+            return [1.0]
+
+        def integrate(self, f, levelvec, a, b):
+            return [0.0]
+
+    class _GS(_G):                 # writes into the caller's point container
+        spoil = True
 
     def stale(o, g, trees, splits, k):
         if g.calls > 1:
@@ -987,6 +1252,23 @@ def selftest():
     assert [sg for sg, _ in o.violations] == ["t/clause" + SEQ_SUFFIX] and "seq-rounds=3" in o.classes, o.violations
     o = drive(c, "t", Outcome(), [0.0], [1.0], _G, always)
     assert [sg for sg, _ in o.violations] == ["t/clause"], o.violations
+    # argument forms: containers are what they claim to be; a callee that writes into them is reported
+    import numpy as np
+    v, owner, f = to_form([0.0, 0.5, 1.0], "ndarray-view", False)
+    assert f == "ndarray-view" and v.base is owner and list(v) == [0.0, 0.5, 1.0] and v.dtype == np.float64
+    assert to_form([0.0, 0.5, 1.0], "int-ndarray", False)[2] == "ndarray"
+    v, _, f = to_form([0.0, 4.0, 8.0], "int-ndarray", False)
+    assert f == "int-ndarray" and v.dtype == np.int64
+    v, _, f = to_form([0, 1, 0], "list-np.int64", True)
+    assert type(v) is list and type(v[0]) is np.int64
+    sn = snapshot(v, None)
+    assert unchanged(v, None, sn)
+    v[1] = np.int64(2)
+    assert not unchanged(v, None, sn)
+    c2 = dict(a=[0.0], len=[1.0], trees=[[[0, 0.5]]], rng=1, form=[["ndarray", "tuple"]])
+    o = drive(c2, "t", Outcome(), [0.0], [1.0], _GS, always)
+    assert [sg for sg, _ in o.violations] == ["t/arguments/points/caller-argument-modified"], o.violations
+    assert "points-as=ndarray" in o.classes and "levels-as=tuple" in o.classes, o.classes
     # end to end: the three sub-checks accept the closed-form cases on uniform grids (trapezoid h/2,h,..,h/2; the
     # high-order rule on 3 uniform points must be Simpson; Lagrange p=2 on [a,m,b] integrates x^2)
     o = run_trapezoid(dict(a=[0.0], len=[1.0], mode="boundary", trees=[complete_splits(2)], rng=1))
